@@ -14,7 +14,7 @@ pub fn run(run: &mut Run) {
         have no keyframe, empty timelines, merged timelines and state animators; every target field is pre-filled with a \
         random bit pattern (NaN payloads included) and compared bit-for-bit after update at times from every phase \
         (before start, active, later cycles, reverse pass, ended); in animator histories every field the current state's \
-        timeline does not animate must be bit-unchanged by each operation; non-trivial = at least one untouched field \
+        timeline does not animate must be bit-unchanged by each operation (builder-built animators from generated configurations and three `animator!` blocks with looping arms lacking a 0 % keyframe, timing-only, merged and overlapping arms); non-trivial = at least one untouched field \
         next to at least one animated field (or an empty timeline); distinct = (shape, set of untouched fields, phase, \
         merged?, empty?)"
         .into();
@@ -31,6 +31,12 @@ pub fn run(run: &mut Run) {
                 with_shape!(shape, tl_case(&mut r, acc, i));
             });
         }
+        for i in my_cases(rc, STREAM_MACRO, n / 200, w, nw) {
+            guarded(acc, "c08", STREAM_MACRO, i, |acc| {
+                let mut r = Rng::derive(seed, STREAM_MACRO, i);
+                macro_anim_case(&mut r, acc, i);
+            });
+        }
         for i in my_cases(rc, STREAM_ANIM, n / 10, w, nw) {
             guarded(acc, "c08", STREAM_ANIM, i, |acc| {
                 let mut r = Rng::derive(seed, STREAM_ANIM, i);
@@ -39,6 +45,44 @@ pub fn run(run: &mut Run) {
             });
         }
     });
+}
+
+const STREAM_MACRO: u64 = 3;
+
+fn macro_anim_case(r: &mut Rng, acc: &mut Acc, index: u64) {
+    use crate::shapes::S4;
+    use mina::StateAnimator;
+    for (name, mut a, animated) in crate::shapes::macro_animators() {
+        let mut ops: Vec<String> = Vec::new();
+        for _ in 0..60 {
+            let before = a.current_values().clone();
+            let op = if r.chance(2, 5) {
+                let s = r.usize(5);
+                a.set_state(&crate::shapes::STATES[s]);
+                format!("set_state({s})")
+            } else {
+                let d = *r.pick(&[0.0f32, 0.001953125, 0.125, 0.25, 0.5, 1.0, 2.0, 7.5, 0.3]);
+                a.advance(d);
+                format!("advance({d})")
+            };
+            ops.push(op.clone());
+            let st = a.current_state().idx();
+            acc.eval();
+            for f in 0..S4::n() {
+                if !animated[st].contains(&f) && before.bits(f) != a.current_values().bits(f) {
+                    acc.violation(
+                        "c08:macro-animator",
+                        format!("animator! block \"{name}\": field {} has no keyframe in the timeline of state {st} but changed from {} to {} on {op}", S4::FIELDS[f], before.get(f), a.current_values().get(f)),
+                        case_json(STREAM_MACRO, index, vec![("animator", J::s(name)), ("ops", J::A(ops.iter().map(|o| J::s(o.clone())).collect())), ("clause", J::s("fields without a keyframe in the current state's timeline are never written"))]),
+                    );
+                    return;
+                }
+            }
+            if animated[st].len() < 4 && before.all_bits() != a.current_values().all_bits() {
+                acc.sig(format!("macro-animator|{name}|state{st}"));
+            }
+        }
+    }
 }
 
 pub fn sentinel_bits(r: &mut Rng, k: Kind) -> u64 {
